@@ -8,6 +8,18 @@
 using namespace iora::core;
 int main(int argc, char **argv) {
   auto in = replay_io::load(argv[1]);
+  if (in.count("MODE") && in["MODE"] == "due") {
+    // D0/D1: the due test. One timer 1 h ahead; collectDueLocked(deadline - EARLY_US) under _mutex must not hand its handler out.
+    long long early = replay_io::i64(in["EARLY_US"]);
+    static TimerService s2;
+    auto tp = TimerService::Clock::now() + std::chrono::hours(1);
+    auto id = s2.scheduleAt(tp, [] {});
+    std::vector<TimerService::Handler> out;
+    { std::lock_guard<std::mutex> lk(s2._mutex); s2.collectDueLocked(tp - std::chrono::microseconds(early), out); }
+    printf("scheduleAt(now + 1 h) -> id %llu; collectDueLocked(deadline - %lld us) handed out %zu handler(s)\n", (unsigned long long)id, early, out.size()); fflush(stdout);
+    if (!out.empty()) { printf("REPLAY-FAIL: D1 not early: a handler was collected %lld us BEFORE its deadline (due test is not tp <= now on the clock's resolution)\n", early); fflush(stdout); _exit(1); }
+    printf("REPLAY-OK: nothing collected before the deadline\n"); fflush(stdout); _exit(0);
+  }
   long long INTERVAL = replay_io::i64(in["INTERVAL"]);
   static TimerService svc;
   static std::atomic<int> runs{0};
